@@ -185,7 +185,7 @@ def _after_edit_contract(edit):
     @contract('C19.after_edit.' + edit, FUNCS + [OP + ':Optic.' + e for e in ('set_thickness', 'scale_system', 'image_solve')],
               ['C19'], max_paths=32, concolic=False)
     def ae(c):
-        feats = ('asphere',) if edit == 'set_asphere_coeff' else ('plain',)
+        feats = ('asphere',) if edit == 'set_asphere_coeff' else (('aperture',) if edit == 'scale_system' else ('plain',))
         lens = build(c, feats)
         v = c.real('edit_value', 1.2, 2.5, positive=True)
         if edit == 'set_thickness':
@@ -221,6 +221,15 @@ def _after_edit_contract(edit):
                 c.ensure('C19.serialisable.json_dump_succeeds_after_edit', False, note=str(ex))
         lens2 = c.mod('optiland.optic').Optic.from_dict(d)
         compare(c, 'C19.roundtrip.same_prescription_after_edit', lens, lens2)
+        if c.mode == 'num':
+            # behaviour, not only attributes: the edited lens and its reloaded copy trace identically (intensities included --
+            # what a physical aperture clips after the edit is what the reloaded aperture clips)
+            for Hy, Px, Py in ((0.0, 0.1, 0.3), (1.0, -0.4, -0.5), (0.5, 0.9, 0.3), (0.0, 0.0, 1.0)):
+                r1 = lens.trace_generic(0.0, Hy, Px, Py, 0.55)
+                r2 = lens2.trace_generic(0.0, Hy, Px, Py, 0.55)
+                # (a reloaded pickup / solve is re-applied at load: vertex positions may differ in the last place, hence 1e-12)
+                same = all(_np.allclose(getattr(r1, a), getattr(r2, a), rtol=1e-12, atol=1e-12, equal_nan=True) for a in ('x', 'y', 'z', 'L', 'M', 'N', 'opd', 'i'))
+                c.ensure('C19.roundtrip.identical_traces_after_edit', same)
     return ae
 
 
